@@ -24,6 +24,9 @@ VARIANTS = [
     V("params-filter-dropped", AD, "    adjoint_params = filter(lambda x: x.requires_grad, adjoint_params)\n", "", rule="R09.5"),
     V("saved-extras-shifted", AD, "            extra_solver_state = extras_and_adjoint_params[:ctx.len_extras]\n            adjoint_params = extras_and_adjoint_params[ctx.len_extras:]\n        else:\n            grad_extra_solver_state = ()",
       "            extra_solver_state = extras_and_adjoint_params[1:ctx.len_extras + 1]\n            adjoint_params = extras_and_adjoint_params[:1]\n        else:\n            grad_extra_solver_state = ()", rule="R09"),
+    # R09.6: another solver starts to carry SDE evaluations in its initial extra state (computed outside the Function)
+    V("every-solver-caches-initial-fields", CORE + "base_solver.py", "    def init_extra_solver_state(self, t0, y0) -> Tensors:\n        return ()\n",
+      "    def init_extra_solver_state(self, t0, y0) -> Tensors:\n        return self.sde.f_and_g(t0, y0)\n", rule="R09.6"),
     # twins
     V("twin-loop-form", AD, "        for i in range(ys.size(0) - 1, 0, -1):", "        for i in reversed(range(1, ys.size(0))):", expect="silent"),
 ]
